@@ -164,6 +164,7 @@ def _next_sibling(st):
 
 
 def r2_pairing(ctx):
+    _close_reaches_both(ctx)
     init, close = _init_close(ctx)
     muts = table_mutations(init)
     if not muts:
@@ -300,6 +301,7 @@ def r3_undo_on_failure(ctx):
 
 # ---------------------------------------------------------------- R4 / R5
 def r4_lexical_scopes(ctx):
+    _conversions_get_env(ctx)
     n = 0
     subs = ["src/scinumtools"] + (["tools", "docs"] if ctx.tier == "thorough" else [])
     for sub in subs:
@@ -344,12 +346,24 @@ def r4_lexical_scopes(ctx):
     c = ctx.repo.cls(UE, "UnitEnvironment")
     ms = methods(c)
     ex = ms.get("__exit__")
-    body = [norm(s) for s in ex.body] if ex else []
-    ctx.check(bool(body) and body[0] == "self.close()" and not any(isinstance(s, ast.Return) and s.value is not None and
-              not (isinstance(s.value, ast.Constant) and s.value.value in (None, False)) for s in ast.walk(ex)), UE,
-              "UnitEnvironment.__exit__", "closes unconditionally and does not swallow exceptions", detail=body)
+    what = "closes unconditionally and does not swallow exceptions"
+    if ex is None:
+        ctx.violated(UE, "UnitEnvironment", what, detail="no __exit__", expected="def __exit__(...): self.close()")
+    else:
+        from ..flowexpr import paths as _paths
+        ps = [q for q in _paths(ex) if q.status != "raise"]
+        swallow = [norm(s.value) for s in ast.walk(ex) if isinstance(s, ast.Return) and s.value is not None and not (isinstance(s.value, ast.Constant) and s.value.value in (None, False))]
+        skipping = [[f"{norm(t.resolved)[:50]} is {t.extra}" for t in q.tests()] for q in ps
+                    if not any(e.resolved is not None and isinstance(e.resolved, ast.AST) and "self.close()" in norm(e.resolved) for e in q.events)]
+        if swallow:
+            ctx.violated(UE, "UnitEnvironment.__exit__", what, detail={"returns": swallow}, expected="a falsy return value: an exception of the body propagates")
+        elif skipping:
+            ctx.violated(UE, "UnitEnvironment.__exit__", what, detail={"paths that do not close": skipping[:2]}, expected="self.close() on every path")
+        else:
+            ctx.holds(UE, "UnitEnvironment.__exit__", what)
     en = ms.get("__enter__")
-    ctx.check(en is not None and [norm(s) for s in en.body] == ["return self"], UE, "UnitEnvironment.__enter__", "returns self")
+    rets = [norm(r.value) for r in ast.walk(en) if isinstance(r, ast.Return) and r.value is not None] if en is not None else []
+    ctx.form(rets == ["self"], UE, "UnitEnvironment.__enter__", "returns self", detail=rets)
 
 
 def r5_no_reentry(ctx):
@@ -406,6 +420,51 @@ def r6_no_derived_state(ctx):
     serving a custom unit's old definition after its scope ended and the symbol was registered again."""
     K.hidden_module_state(ctx, ["src/scinumtools/units", "src/scinumtools/dip"], UNITS_STATE_OWNERS,
                           "a value derived from the unit tables must not outlive the scope that registered the unit")
+
+
+def _conversions_get_env(ctx):
+    """NumberType.convert(unit, env) opens the custom-unit scope itself - but only when it is handed the environment.
+    The node classes call it outside any lexical scope, so each of their calls has to pass the environment on;
+    otherwise a unit defined in the same text is unknown exactly there."""
+    n = 0
+    for mod in ctx.repo.all_modules("src/scinumtools/dip/nodes"):
+        for fn in [x for x in ast.walk(mod.tree) if isinstance(x, (ast.FunctionDef, ast.AsyncFunctionDef))]:
+            scoped = {id(c) for w in ast.walk(fn) if isinstance(w, ast.With) and any("UnitEnvironment(" in norm(i.context_expr) for i in w.items) for c in ast.walk(w)}
+            for c in ast.walk(fn):
+                if isinstance(c, ast.Call) and isinstance(c.func, ast.Attribute) and c.func.attr == "convert" and norm(c.func.value) not in ("self",) and id(c) not in scoped:
+                    n += 1
+                    has_env = len(c.args) >= 2 or any(k.arg == "env" for k in c.keywords)
+                    what = "a unit conversion of a node value outside a lexical unit scope is handed the environment"
+                    if has_env:
+                        ctx.holds(mod.relpath, qualname(fn), what)
+                    else:
+                        ctx.violated(mod.relpath, qualname(fn), what, detail=norm(c)[:80], expected=f"{norm(c.func)}(<unit>, env)")
+    ctx.floor("conversions of node values in dip/nodes", n, 3)
+
+
+def _close_reaches_both(ctx):
+    """close() undoes two lists - the registered symbols and the inserted conversion types.  Every path through it
+    that does not raise walks both (a registration can fail after a type was inserted and before any symbol was)."""
+    from ..flowexpr import explore
+    fn = ctx.fn(UE, "UnitEnvironment.close")
+    ex = explore(fn)
+    what = "close() walks the recorded symbols and the recorded conversion types on every path"
+    for q in ex.paths:
+        if q.status == "raise":
+            continue
+        loops = {norm(e.resolved) for e in q.events if e.kind == "loop" and e.resolved is not None}
+        text = " ".join(sorted(loops)) + " " + " ".join(norm(e.resolved) for e in q.events if e.kind in ("expr", "assign", "store") and e.resolved is not None and isinstance(e.resolved, ast.AST))
+        missing = [f for f in ("self.new_units", "self.new_types") if f not in text]
+        guards = [(norm(t.resolved), t.extra) for t in q.tests()]
+        if not missing:
+            ctx.holds(UE, "UnitEnvironment.close", what)
+            continue
+        proven = all(any((g == f"not {f}" and v) or (g == f and not v) or (g == f"len({f}) == 0" and v) for g, v in guards) for f in missing)
+        if proven:
+            ctx.holds(UE, "UnitEnvironment.close", what)
+        else:
+            ctx.violated(UE, "UnitEnvironment.close", what, detail={"not walked": missing, "under": [f"{g} is {v}" for g, v in guards]},
+                         expected="both undo loops run unless their own list is empty")
 
 
 def r7_duplicate_check(ctx):
